@@ -6,12 +6,14 @@ from ndvc.native import reg, _poly, _coefs, TOL
 
 # ------------------------------------------------------------------------------------------ C06
 HISTORY = []
+KEEP_CACHE = [False]     # case['keep_cache']: the process-wide rule cache keeps what earlier ratios of the same case left in it
 
 
 def _c06_run(method, n, order, r, x, h, D, extra_rows=2):
     import numdifftools.finite_difference as fd
     from numdifftools.extrapolation import Richardson
-    fd.FD_RULES.clear()
+    if not KEEP_CACHE[0]:
+        fd.FD_RULES.clear()
     if HISTORY:
         # the same object used earlier with other orders, then re-configured (as the check does)
         rule = fd.LogRule(n=n, method=method, order=HISTORY[0])
@@ -36,6 +38,7 @@ def _c06_run(method, n, order, r, x, h, D, extra_rows=2):
 
 @reg('C06.exact')
 def c06_exact(case):
+    KEEP_CACHE[0] = bool(case.get('keep_cache'))
     res = _c06_exact_one(case)
     if not res['reproduced'] and case.get('history'):
         HISTORY[:] = case['history']
